@@ -8,6 +8,10 @@ CONSTANTS
   DoScan = FALSE
   TrigonalFixed = TRUE
   BigHkls = {}
+  BlockSize = 0
+  ListMax = 0
+  ListPool = {}
+  ListSizes = {}
   ConcPairs = {}
   CoarseNames = {}
   Stride = 1
